@@ -199,4 +199,23 @@ CLAIMED['C06'] = {
     'design_ref': 'DESIGN.md section 5 C06',
 }
 
+BIND_NOTE = "Trusted: Lean kernel; the bind model (SqlairModel/Types.lean, Bind.lean) is a hand port of typeinfo and of bindtypes/bindinputs/querybuilder over a reflect universe of type descriptors and value trees, validated per run by the L2 correspondence (Prepare accept/reject, Query accept/reject, SQL text, named values, Query-vs-Exec at a scripted driver) on the zoo of compiled Go types with perturbed samples and arguments; the model is fed the implementation's parsed nodes; database/sql's value conversion is applied by the harness translator, not modelled; theorems speak about structured pieces whose rendering mirrors sqlBuilder (the link from piece numbers to occurrences in the rendered text is by construction of render, not proved)"
+
+CLAIMED.update({
+    'C03': {'text': "Proved in Lean for every typed expression list, type table and argument list: argument names are distinct, placeholders and arguments correspond one to one (dense 0..k-1), numbers are handed out in textual order, a slice input expands to one placeholder per element in order (none for the empty slice) with the element values. The value-level clause is additionally checked on the implementation against an independent search-by-tag specification (valueByTag).",
+            'note': BIND_NOTE, 'technique': 'Lean 4 proof (query-builder invariant over foldlM) + driver-level correspondence + independent by-tag value spec', 'design_ref': 'DESIGN.md section 5 C03'},
+    'C04': {'text': "Proved in Lean: insert pieces are rectangular, the row count is the common bulk length or 1, the cell specification (literal / shared single value passed once / element r's value, column-major numbering), omitted columns vanish from header, tuples and arguments, and the four rejection families return errors. Column selection and provider rules of bindTypes are compared with the implementation (accept/reject, SQL); round trip against SQLite.",
+            'note': BIND_NOTE + "; O2 (provider order dependence outside the one-provider domain) is reproduced literally", 'technique': 'Lean 4 proof (bindCols/insertRows specifications) + correspondence + SQLite twin-table comparison', 'design_ref': 'DESIGN.md section 5 C04'},
+    'C05': {'text': "Proved in Lean: aliases are 0..n-1 in textual order and outputs[k] is the destination of alias k; rows are returned iff there is a non-empty output expression; end to end from any byte string through the parser model no generated column is a wildcard. Per-form column lists (sorted tags, table prefix, verbatim explicit columns) are compared with the implementation's SQL.",
+            'note': BIND_NOTE, 'technique': 'Lean 4 proof (output counter invariant; parser-to-binder wildcard theorem) + correspondence', 'design_ref': 'DESIGN.md section 5 C05'},
+    'C07': {'text': "Partial. The executable bindTypes of the model is the specification of well-typedness: Prepare must accept exactly what it accepts (a disagreement is a concrete failing input) on generated statements x sample sets (missing, extra, duplicated, same-named, pointer, anonymous, nil, rejected struct shapes). Proved in Lean: after a successful Prepare no argument list can produce an internal error, insert columns never carry slice locators, locators have the right kinds. The declarative WellTyped iff of DESIGN section 5 is not proved.",
+            'note': BIND_NOTE, 'technique': 'executable-specification correspondence + Lean 4 totality/no-internal-error proofs', 'design_ref': 'DESIGN.md section 5 C07'},
+    'C08': {'text': "Partial. Proved in Lean: the exact acceptance condition of ValidateInputs, its independence of argument order, and that an unusable argument makes bindInputs fail with an argument error (never an internal one). Checked on the implementation: Query accepts exactly the argument lists the model accepts over all forms (T, *T, []T, []*T, *[]T, **T, anonymous, nil variants, foreign same-named types alone and in addition) and a rejected Query produces no driver event.",
+            'note': BIND_NOTE, 'technique': 'Lean 4 proof (validateInputs_ok_iff, permutation) + correspondence with empty-driver-log check', 'design_ref': 'DESIGN.md section 5 C08'},
+    'C16': {'text': "Partial (data races not modelled). Proved in Lean: for a prepared statement the result of bindInputs (SQL pieces, arguments, outputs) is invariant under permutation of the arguments (the unrestricted statement is false for hand-built expressions: kernel-checked counterexamples); bindInputs is a pure function of (typed expressions, arguments). Checked on the implementation: permuted samples/arguments, a separately prepared Statement, a Query built before another Query of the same Statement, and (thorough) concurrent runs all produce byte-identical SQL and arguments.",
+            'note': BIND_NOTE + "; freedom from data races is not expressible in the model", 'technique': 'Lean 4 proof (permutation invariance) + repeated/interleaved/concurrent run comparison', 'design_ref': 'DESIGN.md section 5 C16'},
+    'C17': {'text': "Partial (SQLite observed, not modelled). Proved in Lean: the store half (what an insert piece writes reads back column by column; unwritten columns are NULL) which composes with C04's cell specification and C06's scan theorems. Observed against real SQLite: every generated insert/select/update/delete is accepted, tables written through SQLair equal twin tables written with hand-written SQL, rows read back equal the rows inserted. Known finding: an insert whose every column is omitted is rejected by the engine.",
+            'note': "Trusted: Lean kernel for the store/bind/scan theorems; go-sqlite3 as the engine; the composition of the three halves is stated, not mechanised", 'technique': 'Lean 4 proofs of store/bind/scan halves + real-engine twin-table comparison', 'design_ref': 'DESIGN.md section 5 C17'},
+})
+
 NOT_CLAIMED_REASON = {}
